@@ -189,16 +189,16 @@ class Check(PropertyCheck):
                   "whole table + general lemmas): every historical version key reaches the current format in a strictly "
                   "version-increasing chain (the migrate loop terminates from every version value whatsoever), the current "
                   "version is a fixed point, unknown versions are rejected with 'please update' exactly for larger "
-                  "integers. The field surgery of the sixteen converters for integer formats 5..20 is modelled over the tnetstring value type of C36 (Model/C38_Conv.lean) and proved to write exactly the next version (conv_writes_next_version), to leave every top-level key outside a stated per-converter set untouched (conv_frame; request/id/type/error/intercepted never change: request_preserved; response only by 13->14), plus marked_migration, mode_dropped, proxy_mode_added, state_dropped, timestamp_created_from_request; the older formats 5..9 (convOld: ssl->tls renames, tls_extensions, trailers, first_line_format/authority/is_replay, the 9->10 connection rebuild incl. the nested via connection) with convOld_writes_next_version, convOld_frame, old_identity_preserved, old_request_preserved (only 7->8 and 8->9 touch the request), request_fields_8_9, trailers_added_7_8, tls_renamed_5_6; 18->19 (renames, defaults, the UTF-8/backslashreplace decode of host bytes built on the C35 decoder transcription, sni=True repair) with conv_18_19_spec, client_frame_18_19/client_renames_18_19, server_frame_18_19/server_renames_18_19, host_decode_valid_utf8/host_decode_ascii (a valid-UTF-8 host is the same text afterwards) and host_decode_escape; the whole modelled chain 12->21 keeps the request and arrives at version 21 (steps_request_preserved by induction over any number of converter steps, chain_request_preserved); each step of the real converters is compared byte for byte (re-encoded tnetstring) with the Lean converter. Whole-chain behaviour is validated differentially: all shipped historical dumps, "
+                  "integers. The field surgery of the sixteen converters for integer formats 5..20 is modelled over the tnetstring value type of C36 (Model/C38_Conv.lean) and proved to write exactly the next version (conv_writes_next_version), to leave every top-level key outside a stated per-converter set untouched (conv_frame; request/id/type/error/intercepted never change: request_preserved; response only by 13->14), plus marked_migration, mode_dropped, proxy_mode_added, state_dropped, timestamp_created_from_request; the older formats 5..9 (convOld: ssl->tls renames, tls_extensions, trailers, first_line_format/authority/is_replay, the 9->10 connection rebuild incl. the nested via connection) with convOld_writes_next_version, convOld_frame, old_identity_preserved, old_request_preserved (only 7->8 and 8->9 touch the request), request_fields_8_9, trailers_added_7_8, tls_renamed_5_6; 18->19 (renames, defaults, the UTF-8/backslashreplace decode of host bytes built on the C35 decoder transcription, sni=True repair) with conv_18_19_spec, client_frame_18_19/client_renames_18_19, server_frame_18_19/server_renames_18_19, host_decode_valid_utf8/host_decode_ascii (a valid-UTF-8 host is the same text afterwards) and host_decode_escape; the two converters with PROCESS-GLOBAL tables are modelled with their tables as explicit state (Model/C38_State.lean): 11->12 with `_websocket_handshakes` (handshake_stored, ws_takes_stored_handshake, ws_without_handshake_dummy, plain_is_stateless, table_frame_11_12 and, by induction over any run of records, stored_until_consumed) and 4->5 with the connection-id tables and the uuid supply as a parameter (client_id_is_recorded_id, ids_stable_4_5, ids_stable_over_run); the whole modelled chain 12->21 keeps the request and arrives at version 21 (steps_request_preserved by induction over any number of converter steps, chain_request_preserved); each step of the real converters is compared byte for byte (re-encoded tnetstring) with the Lean converter. Whole-chain behaviour is validated differentially: all shipped historical dumps, "
                   "synthetic states downgraded by inverse converters to each version 10..20, current states, and unknown "
                   "future versions go through the real migrate_flow / FlowReader / FlowWriter.")
-    level_note = ("partial: proved are the version chain, the loop and the per-converter field facts for formats 5..20 (4->5 draws uuids and keeps process-global tables: not modelled; 11->12 "
-                  "only without websocket metadata; 13->14 timestamp repair only for integer timestamps); tuple-version converters "
-                  "and the websocket branches of 11->12 are validated only (goldens for shipped dumps, inverse-converter "
+    level_note = ("partial: proved are the version chain, the loop and the per-converter field facts for formats 4..20 (4->5: uuid4 is a parameter, table keys are compared through their tnetstring encoding "
+                  "- an int and an equal float would differ - and only list-valued addresses are generated: what format 4 wrote for an unconnected server is not known here; 13->14 timestamp repair only for integer timestamps); tuple-version converters "
+                  "are validated only (goldens for shipped dumps, inverse-converter "
                   "round trips for versions 10..20). "
                   "trusted: Lean kernel, the AST-based translator (reads `data[\"version\"] = …` in each converter).")
     technique = "Lean 4 proof over a table regenerated from the source (decide +kernel + lemmas) + differential migration runs"
-    rule = ("kinds: dumpsplit (a shipped multi-record dump spread over two files read in sequence, optionally another file in between), dumpperm (records of a shipped multi-record dump in another admissible order load as the same flows), conv (one converter step vs the Lean converter), dump (each shipped dumpfile: load, validity, re-save/re-load equality, golden digest), current (random "
+    rule = ("kinds: wsseq (a run of format-11 records - handshake flows, old websocket flows naming a handshake id, plain flows - through the real convert_11_12 in one process vs the Lean converter with its table, expectations from the roles/ids alone), idseq (a run of format-4 records of a few connections through convert_4_5 with uuid4 replaced by a counter), dumpsplit (a shipped multi-record dump spread over two files read in sequence, optionally another file in between), dumpperm (records of a shipped multi-record dump in another admissible order load as the same flows), conv (one converter step vs the Lean converter), dump (each shipped dumpfile: load, validity, re-save/re-load equality, golden digest), current (random "
             "current-format flows must pass migration unchanged), downgrade (random current flow restricted to what version v "
             "could express, inverse-converted down to v in 10..20, migrated forward, compared), future (unknown versions). "
             "distinct = distinct (kind, parameters); non-trivial = kind != dump-metadata-only.")
@@ -274,6 +274,17 @@ class Check(PropertyCheck):
                 yield {"kind": "dumpsplit", "file": os.path.relpath(p, REPO), "cut": cut, "between": None}
                 o_ = others_of(p)
                 yield {"kind": "dumpsplit", "file": os.path.relpath(p, REPO), "cut": cut, "between": o_[cut % len(o_)]}
+        st0 = canon_in(tflow.tflow(resp=True).get_state())
+        for recs in ([{"role": "hs", "id": 0}, {"role": "ws", "id": 1, "hs": 0, "sender": "client", "nmsg": 2}],
+                     [{"role": "hs", "id": 0}, {"role": "ws", "id": 1, "hs": 0, "sender": "server", "nmsg": 1}, {"role": "ws", "id": 2, "hs": 0, "sender": None, "nmsg": 0}],
+                     [{"role": "ws", "id": 1, "hs": 0, "sender": "client", "nmsg": 1}, {"role": "hs", "id": 0}],
+                     [{"role": "hs", "id": 0}, {"role": "plain", "id": 3}, {"role": "hs", "id": 1}, {"role": "ws", "id": 2, "hs": 1, "sender": "client", "nmsg": 1},
+                      {"role": "ws", "id": 3, "hs": 0, "sender": "server", "nmsg": 3}],
+                     [{"role": "hs", "id": 0}, {"role": "hs", "id": 0}, {"role": "ws", "id": 1, "hs": 0, "sender": "client", "nmsg": 1}]):
+            yield {"kind": "wsseq", "state": st0, "recs": [dict({"hs": 0, "sender": None, "nmsg": 0, "both": False}, **r_) for r_ in recs]}
+        for recs in ([{"c": 0, "s": 0, "via": None}, {"c": 0, "s": 0, "via": None}], [{"c": 0, "s": 1, "via": None}, {"c": 1, "s": 1, "via": 0}, {"c": 0, "s": 0, "via": 1}],
+                     [{"c": 0, "s": 0, "via": 0}, {"c": 1, "s": 2, "via": 2}, {"c": 2, "s": 2, "via": None}, {"c": 0, "s": 0, "via": 0}]):
+            yield {"kind": "idseq", "state": st0, "recs": recs}
         while True:
             r = rng.random()
             st = self._rand_flow_state(rng)
@@ -286,6 +297,18 @@ class Check(PropertyCheck):
                 dumps = self._dumps()
                 yield {"kind": "dumpmut", "file": os.path.relpath(rng.choice(dumps), REPO), "edit": rng.choice(DUMP_EDITS),
                        "n": rng.randint(2, 10 ** 6)}
+            elif r < 0.2 and st.get("websocket") is None:
+                # the two converters with process-global tables, on a run of records in one process
+                if rng.chance(0.6):
+                    recs = []
+                    for _ in range(rng.randint(1, 6)):
+                        role = rng.choice(["hs", "ws", "ws", "plain"])
+                        recs.append({"role": role, "id": rng.randint(0, 3), "hs": rng.randint(0, 3), "sender": rng.choice(["client", "server", None]),
+                                     "nmsg": rng.randint(0, 3), "both": rng.chance(0.05)})
+                    yield {"kind": "wsseq", "state": canon_in(st), "recs": recs}
+                else:
+                    yield {"kind": "idseq", "state": canon_in(st),
+                           "recs": [{"c": rng.randint(0, 2), "s": rng.randint(0, 2), "via": rng.choice([None, None, 0, 1, 2])} for _ in range(rng.randint(1, 6))]}
             elif r < 0.3:
                 yield {"kind": "current", "state": canon_in(st)}
             elif r < 0.5:
@@ -430,6 +453,8 @@ class Check(PropertyCheck):
             except Exception as e:
                 resave = f"{type(e).__name__}: {e}"[:160]
             return {"equal": not diff, "diff": diff[:6], "resave": resave}
+        if k in ("wsseq", "idseq"):
+            return {"steps": self._run_tables(case)}
         if k == "conv":
             old2, wire = self._conv_input(case)
             try:
@@ -466,6 +491,89 @@ class Check(PropertyCheck):
                 rr = "flowread"
             return {"migrate": r, "reader": rr}
         raise Skip()
+
+    def _ws_records(self, case):
+        """format-11 records: handshake flows (metadata.websocket), old-style websocket flows naming a handshake id, plain flows"""
+        base, _ = self._conv_input({"v": 11, "state": case["state"]})
+        out = []
+        for i, r in enumerate(case["recs"]):
+            if r["role"] in ("hs", "plain"):
+                d = copy.deepcopy(base); d["id"] = "id-%d" % r["id"]
+                d["request"]["path"] = b"/rec%d" % i
+                d["server_conn"]["timestamp_end"] = 1000.5 + i
+                if r["role"] == "hs":
+                    d["metadata"]["websocket"] = True
+                    if r.get("both"): d["metadata"]["websocket_handshake"] = "id-%d" % r["hs"]
+            else:
+                d = {"client_conn": copy.deepcopy(base["client_conn"]), "server_conn": copy.deepcopy(base["server_conn"]), "error": None,
+                     "id": "id-%d" % r["id"], "intercepted": False, "is_replay": None, "marked": False,
+                     "metadata": {"websocket_handshake": "id-%d" % r["hs"]}, "type": "websocket", "version": 11,
+                     "messages": [[1, bool(j % 2), b"m%d-%d" % (i, j), 1600000000.25 + j, False] for j in range(r["nmsg"])],
+                     "close_sender": r["sender"], "close_code": 1000 + i, "close_reason": "bye%d" % i, "close_message": "(message missing)",
+                     "client_key": "k", "client_protocol": "", "client_extensions": "", "server_accept": "a", "server_protocol": "", "server_extensions": ""}
+                d["server_conn"]["timestamp_end"] = 2000.5 + i
+            if r["role"] == "ws" and r.get("both"):
+                d["metadata"]["websocket"] = True
+            out.append(d)
+        return out
+
+    def _id_records(self, case):
+        """format-4 records of a few client / server connections (key: timestamp_start + address)"""
+        base, _ = self._conv_input({"v": 5, "state": case["state"]})
+        base["client_conn"].pop("id", None); base["server_conn"].pop("id", None); base["version"] = 4
+        out = []
+        def server(j):
+            sc = copy.deepcopy(base["server_conn"]); sc["timestamp_start"] = 1500000000.5 + j; sc["source_address"] = ["10.0.0.%d" % j, 40000 + j]; sc["via"] = None
+            return sc
+        for r in case["recs"]:
+            d = copy.deepcopy(base)
+            d["client_conn"]["timestamp_start"] = 1400000000.25 + r["c"]; d["client_conn"]["address"] = ["::ffff:127.0.0.1", 50000 + r["c"], 0, 0]
+            d["server_conn"] = server(r["s"])
+            if r["via"] is not None: d["server_conn"]["via"] = server(r["via"])
+            out.append(d)
+        return out
+
+    def _run_tables(self, case):
+        """the records through the real converter in one process, tables cleared first; uuid4 replaced by a counter"""
+        outs = []
+        if case["kind"] == "wsseq":
+            compat._websocket_handshakes.clear()
+            try:
+                for d in self._ws_records(case):
+                    loaded = tnetstring.loads(tnetstring.dumps(d))
+                    try: o = compat.convert_11_12(copy.deepcopy(loaded))
+                    except Exception as e:
+                        outs.append({"out": None, "exc": f"{type(e).__name__}: {e}"[:120]}); break
+                    outs.append({"out": tnetstring.dumps(o).hex(), "tbl": len(compat._websocket_handshakes), "id": o.get("id"),
+                                 "path": _hx((o.get("request") or {}).get("path", b"")) if isinstance(o.get("request"), dict) else None,
+                                 "host": _hx((o.get("request") or {}).get("host", b"")) if isinstance(o.get("request"), dict) else None,
+                                 "ws": None if o.get("websocket") is None else {"n": len(o["websocket"]["messages"]), "cbc": o["websocket"]["closed_by_client"],
+                                                                              "code": o["websocket"]["close_code"], "te": o["websocket"]["timestamp_end"]},
+                                 "dup": "duplicated" in (o.get("metadata") or {})})
+            finally:
+                compat._websocket_handshakes.clear()
+        else:
+            compat.client_connections.clear(); compat.server_connections.clear()
+            class _U:
+                n = 0
+                def uuid4(self_):
+                    v = "uuid-%d" % _U.n; _U.n += 1
+                    return v
+            real = compat.uuid
+            compat.uuid = _U()
+            try:
+                for d in self._id_records(case):
+                    loaded = tnetstring.loads(tnetstring.dumps(d))
+                    try: o = compat.convert_4_5(copy.deepcopy(loaded))
+                    except Exception as e:
+                        outs.append({"out": None, "exc": f"{type(e).__name__}: {e}"[:120]}); break
+                    outs.append({"out": tnetstring.dumps(o).hex(), "nc": len(compat.client_connections), "ns": len(compat.server_connections), "drawn": _U.n,
+                                 "cid": o["client_conn"].get("id"), "sid": o["server_conn"].get("id"),
+                                 "vid": (o["server_conn"].get("via") or {}).get("id")})
+            finally:
+                compat.uuid = real
+                compat.client_connections.clear(); compat.server_connections.clear()
+        return outs
 
     def _conv_input(self, case):
         """the state as format `v` stored it (inverse converters from a current state), as read back from its tnetstring"""
@@ -609,6 +717,46 @@ class Check(PropertyCheck):
                     hx = [h for n, h, g in obs["hosts"] if n == "server_conn.address"][0]
                     if hx is not None and obs["hosts"][-1][2] != ref_backslash_utf8(bytes.fromhex(hx)):
                         fails.append(f"converter 18: sni=True with address host {hx} became sni {obs['hosts'][-1][2]!r}")
+        elif k == "wsseq":
+            # an old recording keeps a websocket connection as a handshake flow plus a message flow naming it: loaded, the
+            # messages belong to THAT handshake flow (expectation computed from the case's roles/ids alone)
+            table = {}
+            for i, (r, o) in enumerate(zip(case["recs"], obs["steps"])):
+                # a record carrying both metadata flags never occurred in old files: from there on the run only feeds the model tie
+                if r.get("both"): break
+                if o["out"] is None:
+                    fails.append(f"record {i} ({r['role']}) of the run raised: {o['exc']}"); break
+                if r["role"] in ("hs", "plain") and not r.get("both"):
+                    if o["id"] != "id-%d" % r["id"] or o["path"] != (b"/rec%d" % i).hex() or o["ws"] is not None or o["dup"]:
+                        fails.append(f"record {i} ({r['role']} id-{r['id']}) came out as id {o['id']!r}, path {bytes.fromhex(o['path'] or '')!r}, websocket {o['ws']}")
+                    if r["role"] == "hs": table[r["id"]] = i
+                elif r["role"] == "ws" and not r.get("both"):
+                    want_ws = {"n": r["nmsg"], "cbc": r["sender"] == "client", "code": 1000 + i}
+                    got_ws = None if o["ws"] is None else {k_: o["ws"][k_] for k_ in ("n", "cbc", "code")}
+                    if r["hs"] in table:
+                        j = table.pop(r["hs"])
+                        if o["id"] != "id-%d" % r["hs"] or o["path"] != (b"/rec%d" % j).hex() or got_ws != want_ws or not o["dup"] or o["ws"]["te"] != 1000.5 + j:
+                            fails.append(f"record {i}: websocket flow naming handshake id-{r['hs']} (record {j}) came out as id {o['id']!r}, path "
+                                         f"{bytes.fromhex(o['path'] or '')!r}, websocket {o['ws']} (wanted {want_ws}, timestamp_end {1000.5 + j})")
+                    else:
+                        if o["id"] != "id-%d" % r["id"] or o["host"] != b"unknown".hex() or got_ws != want_ws or o["ws"]["te"] != 2000.5 + i:
+                            fails.append(f"record {i}: websocket flow without a handshake on record came out as id {o['id']!r}, host "
+                                         f"{bytes.fromhex(o['host'] or '')!r}, websocket {o['ws']} (wanted {want_ws})")
+                if o["tbl"] != len(table):
+                    fails.append(f"after record {i} {o['tbl']} handshake(s) are on record, expected {len(table)}")
+        elif k == "idseq":
+            # flows of one old connection (same timestamp_start + address) share one connection id, different connections differ
+            cids, sids = {}, {}
+            for i, (r, o) in enumerate(zip(case["recs"], obs["steps"])):
+                if o["out"] is None:
+                    fails.append(f"record {i} of the run raised: {o['exc']}"); break
+                for what, key, tbl, got in (("client", r["c"], cids, o["cid"]), ("server", r["s"], sids, o["sid"])) + \
+                                            ((("via", r["via"], sids, o["vid"]),) if r["via"] is not None else ()):
+                    if not isinstance(got, str) or not got: fails.append(f"record {i}: {what} connection id is {got!r}"); continue
+                    if key in tbl and tbl[key] != got: fails.append(f"record {i}: {what} connection {key} had id {tbl[key]} and now gets {got}")
+                    if key not in tbl and got in tbl.values(): fails.append(f"record {i}: new {what} connection {key} gets the id {got} of another connection")
+                    tbl.setdefault(key, got)
+                if set(cids.values()) & set(sids.values()): fails.append(f"record {i}: a client and a server connection share an id")
         elif k == "future":
             # "Files from newer, unknown format versions are rejected with an explanatory error"
             v = case["version"]
@@ -630,6 +778,11 @@ class Check(PropertyCheck):
             try: _, wire = self._conv_input(case)
             except Skip: return None
             return ["conv %d %s" % (case["v"], wire.hex() or "-")]
+        if case["kind"] in ("wsseq", "idseq"):
+            try: recs = self._ws_records(case) if case["kind"] == "wsseq" else self._id_records(case)
+            except Skip: return None
+            op = "conv11" if case["kind"] == "wsseq" else "conv4"
+            return ["tables-reset"] + ["%s %s" % (op, tnetstring.dumps(d).hex()) for d in recs]
         if case["kind"] == "dump":
             return ["golden"]   # the golden digest table is the 'model' side for shipped dumps (not a Lean line)
         return None
@@ -638,6 +791,12 @@ class Check(PropertyCheck):
         if case["kind"] == "future": return replies[0]
         if case["kind"] == "downgrade": return replies
         if case["kind"] == "conv": return replies[0]
+        if case["kind"] in ("wsseq", "idseq"):
+            out = []
+            for r in replies[1:]:
+                out.append(r)
+                if r == "none": break          # the reader stops at a record that raises
+            return out
         if case["kind"] == "dump":
             g = self._golden().get(case["file"])
             return g if g is not None else "<no golden recorded>"
@@ -652,6 +811,10 @@ class Check(PropertyCheck):
             return ["ok", str(version.FLOW_FORMAT_VERSION - case["to"])] if "error" not in obs else ["err", "?"]
         if case["kind"] == "conv":
             return "none" if obs["out"] is None else "ok " + obs["out"]
+        if case["kind"] == "wsseq":
+            return ["none" if o["out"] is None else "ok %s %d" % (o["out"], o["tbl"]) for o in obs["steps"]]
+        if case["kind"] == "idseq":
+            return ["none" if o["out"] is None else "ok %s %d %d %d" % (o["out"], o["nc"], o["ns"], o["drawn"]) for o in obs["steps"]]
         if case["kind"] == "dump":
             return {"n": obs["n"], "types": obs["types"], "digest": obs["digest"], "flows": obs["flows"]}
         return None
@@ -667,6 +830,7 @@ class Check(PropertyCheck):
         if case["kind"] == "dumpsplit": return ("dumpsplit", case["file"], case["cut"], case["between"])
         if case["kind"] == "future": return ("future", str(case["version"]))
         if case["kind"] == "conv": return ("conv", case["v"], case.get("tweak"), case.get("mode"), digest(case["state"]))
+        if case["kind"] in ("wsseq", "idseq"): return (case["kind"], json.dumps(case["recs"], sort_keys=True), digest(case["state"]))
         return (case["kind"], case.get("to"), case.get("mode"), case.get("variant"), digest(case["state"]))
 
     def branches(self, case, obs):
@@ -674,6 +838,8 @@ class Check(PropertyCheck):
         if case["kind"] == "dumpperm": return ["dumpperm:" + os.path.basename(case["file"])]
         if case["kind"] == "dumpsplit": return ["dumpsplit:" + os.path.basename(case["file"]) + (":between" if case["between"] else "")]
         if case["kind"] == "conv": return ["conv:v%d" % case["v"], "conv-tweak:%s" % case.get("tweak")]
+        if case["kind"] == "wsseq": return ["wsseq"] + sorted({"wsseq:" + r["role"] for r in case["recs"]})
+        if case["kind"] == "idseq": return ["idseq"] + (["idseq:via"] if any(r["via"] is not None for r in case["recs"]) else [])
         return [case["kind"] + (":v%d" % case["to"] if case["kind"] == "downgrade" else "")]
 
     def describe(self, case, obs):
@@ -704,6 +870,10 @@ CONV_TWEAKS = {5: ["via-conn", "no-ssl"], 7: ["resp-none", "no-request", "req-in
                10: ["sni-bytes", "sni-bytes", "sni-none", "empty-lists"], 12: ["marked-true", "marked-false"], 13: ["ts-null", "ts-null"],
                15: ["no-request"], 18: ["host-bytes", "host-bytes", "host-bytes", "sni-true", "sni-true-bytes", "ts-none", "no-transport", "no-cipher-name"],
                20: ["quic", "quic-server"]}
+def _hx(v):
+    return v.hex() if isinstance(v, bytes) else str(v).encode("utf-8", "surrogateescape").hex()
+
+
 def ref_backslash_utf8(b):
     """reference for decode(errors='backslashreplace'): the longest strictly valid UTF-8 character at each position, else \\xNN for that byte"""
     out = []; i = 0
